@@ -2800,7 +2800,11 @@ class tensor:
         [[-1 -2]
          [-3 -4]]
         """
-        return ttb.tensor(-1 * self.data)
+        data = self.data
+        if np.issubdtype(data.dtype, np.unsignedinteger):
+            # Unsigned integers cannot hold a negative: widen first
+            data = data.astype(np.promote_types(data.dtype, np.int8))
+        return ttb.tensor(-1 * data)
 
     def __repr__(self):
         """Return string representation of the tensor.
